@@ -480,7 +480,8 @@ impl Runner {
         let imgi = self.st.col("img").unwrap();
         for _ in 0..nq {
             let nterms = self.rng.range(1, 3) as usize;
-            let terms: Vec<String> = (0..nterms).map(|_| WORDS[self.rng.usize(WORDS.len())].to_string()).collect();
+            // now and then a term that no document contains (AND must then match nothing, OR ignores it)
+            let terms: Vec<String> = (0..nterms).map(|_| if self.rng.chance(0.15) { "zzyzx".to_string() } else { WORDS[self.rng.usize(WORDS.len())].to_string() }).collect();
             let mode = self.rng.below(3); // 0 = OR, 1 = AND, 2 = phrase
             let qtext = terms.join(" ");
             let query = match mode {
